@@ -9,7 +9,7 @@ OUTSIDE = ["agreement with point_to_ellipsoid (Newton iteration, outside reach) 
            "rounding"]
 BOUNDS = {"quick": "query point FULLY symbolic (3 reals in [-3,3]^3 around the shape), batches of 1-3 points with the symbolic one at every position; 8 predicates x 4 signed-permutation poses + rotation sweep about one axis (4 reals)",
           "thorough": "all 24 poses, 3 rotation sweeps, larger sizes"}
-WALL_BUDGET = {"quick": 300, "thorough": 900}
+WALL_BUDGET = {"quick": 300, "thorough": 600}
 
 
 def make(family, args):
